@@ -505,8 +505,8 @@ def validate_and_replay(prop, tier, tu, r, seed, nrand, replay_dir):
             if tu.native_cxx:
                 c1, i1, o1, e1 = native_run(tu.native_cxx, entry, rp)
                 how = "plain: %s %s" % (c1, i1)
-                if want_id is not None and c1 == "assert-failed" and i1 == want_id:
-                    ok = True
+                if want_id is not None and c1 == "assert-failed" and (i1 == want_id or want_id == "0"):
+                    ok = True       # "VPASSERT 0" = id was not a literal in the harness: any failed assertion of this entry confirms
                 elif want_id is None and (c1.startswith("crash") or c1 == "timeout"):
                     ok = True
                 elif want_id is None and "VPABORT" in p["desc"] and c1.startswith("crash"):
